@@ -45,10 +45,14 @@ def compare(tag, s0, system, V, C, ctx):
 def run_case(case):
     E = env.load()
     rnd = case_rng(case["seed"], case["idx"], "C05")
-    h = Hist(rnd, case["tier"])
+    spec0 = None
+    if case["idx"] % 8 == 5:
+        from .c17 import builder_spec
+        spec0 = builder_spec(rnd)
+    h = Hist(rnd, case["tier"], spec=spec0)
     C = {k: 0 for k in ("simulations_run", "succeeded", "raised", "baseline_comparisons", "toggle_steps", "raised_after_apply",
                         "fault_unit", "fault_allowed", "fault_recompute", "build_failed", "previous_totals_checked")}
-    classes = set(gen.topo_classes(h.spec))
+    classes = set(gen.topo_classes(h.spec)) | ({"builder_model"} if spec0 is not None else set())
     if h.build_error:
         C["build_failed"] = 1
         return {"counters": C, "classes": sorted(classes), "violations": []}
